@@ -976,8 +976,11 @@ class Gen(object):
         if x is None:
             return None
         return {"op": "validate_optional", "x": self.ref(x),
+                # the last two are default rules the library registers for several classes:
+                # a custom Validation may use them for one class without the others losing them
                 "rule": self.pick(["section_repository_present", "property_terminology_check",
-                                   "section_unique_ids", "property_unique_ids"])}
+                                   "section_unique_ids", "property_unique_ids",
+                                   "object_name_readable", "object_required_attributes"])}
 
     def g_validate_custom(self):
         x = self.pick(self.U.objs)
